@@ -258,6 +258,7 @@ pub fn property() -> Property {
             "an expression reference passed to a parameter declared `any` is a don't-care (Ok or invalid-type)".into(),
             "merge() with no argument is treated as an arity error (the suite and jmespath.py agree; the specification text is ambiguous)".into(),
         ],
+        minimise: None,
         subs: vec![Sub::Custom(CustomSub { name: "table", run: table, replay: replay_cell })],
     }
 }
